@@ -27,8 +27,10 @@ CONSTANTS DevWorkerClass,   \* D18: the worker_class alias clears raptor_class
           DevRemembers,     \* verify() skipped while a "verified" mark is set which
                             \* only attribute assignment clears (not a deviation of
                             \* the code: shows that the sequence invariants bind)
-          DevByRefMain      \* classes of the application script are shipped by
+          DevByRefMain,     \* classes of the application script are shipped by
                             \* reference (ditto)
+          DevRegistryEarly  \* the registry copy of a worker description is taken
+                            \* before verify() (ditto)
 
 (* ======================================================================= *)
 (* task descriptions                                                       *)
@@ -190,6 +192,30 @@ SeqApply(s, o) ==
        ELSE IF Rejects(s.d) THEN [d |-> VerifyRej(s.d), mark |-> FALSE, ok |-> FALSE]
                             ELSE [d |-> Verify(s.d),    mark |-> TRUE,  ok |-> TRUE]
   ELSE [d |-> Apply(s.d, OpSet(o)), mark |-> s.mark /\ OpHow(o) # "attr", ok |-> s.ok]
+
+(* ---- hand-over points: every copy that travels is the normalised one ---- *)
+\* routes: raptor Master.submit_workers (registry copy read by the worker, copy
+\* inserted / sent to the agent), Master.submit_tasks for executable tasks
+\* (inserted / sent to the agent) and for raptor tasks (advanced / queued for
+\* the workers)
+Routes == {"workers", "tasks_exec", "tasks_raptor"}
+RouteBg(r) == CASE r = "workers"    -> [mode |-> "raptor.worker"]
+                [] r = "tasks_exec" -> [mode |-> "task.executable", executable |-> "x"]
+                [] OTHER            -> [mode |-> "task.function", function |-> "x"]
+\* what the master itself fills in before it verifies
+HandPre(r, d) == IF r # "workers" THEN d
+                 ELSE [d EXCEPT !.raptor_id = "m",
+                                !.executable = IF T(d, "executable") THEN @
+                                               ELSE "radical-pilot-raptor-worker"]
+CopyNames(r) == CASE r = "workers"    -> <<"verified", "registry", "insert", "sent">>
+                  [] r = "tasks_exec" -> <<"verified", "insert", "sent">>
+                  [] OTHER            -> <<"verified", "sent", "queued">>
+\* the copies a hand-over produces (for an accepted description)
+HandCopies(r, d) ==
+  LET pre == HandPre(r, d) IN
+  [i \in 1 .. Len(CopyNames(r)) |->
+     [which |-> CopyNames(r)[i],
+      d     |-> IF DevRegistryEarly /\ CopyNames(r)[i] = "registry" THEN pre ELSE Verify(pre)]]
 
 \* as_dict() / constructor on the projected attributes: a plain dictionary
 \* holds every key; the constructor overlays the defaults with it
